@@ -621,11 +621,27 @@ def oracle(case):
             method = rng.choice(["POST", "PUT", "PATCH", "GET", "DELETE", "HEAD"])
             cl = rng.choice([len(body), len(body), len(body), None, 0, max(len(body) - 3, 0)])
             env = environ(method, "", body, ctype, cl)
-            status, ran, _, _ = call(get_app(**cfg), env)
+            # the handler reads the body itself, in pieces: req.read(k) any number of times
+            sizes = [rng.choice([-1, -1, 0, 1, 2, 5, 100]) for _ in range(rng.randrange(0, 5))]
+            got = []
+
+            def fn(req):
+                for k in sizes:
+                    got.append(req.read(k) if k >= 0 or rng.random() < 0.5 else req.read())
+                return None
+            status, ran, _, _ = call(get_app(**cfg), env, fn)
             limit = cl or 0
             if env["wsgi.input"].pos > limit:
-                bad = ("%d bytes taken from wsgi.input, declared Content-Length %r (%s, %s, body %r)"
-                       % (env["wsgi.input"].pos, cl, ctype, cfg, body[-24:]))
+                bad = ("%d bytes taken from wsgi.input, declared Content-Length %r (%s, %s, body %r, handler reads %r)"
+                       % (env["wsgi.input"].pos, cl, ctype, cfg, body[-24:], sizes))
+            elif ran and ctype in ("text/plain", None) and method in ("POST", "PUT", "PATCH"):
+                # a body the framework does not parse: the pieces are consecutive pieces of the declared body
+                joined = b"".join(got)
+                if not body[:limit].startswith(joined):
+                    bad = ("req.read%r returned %r, the declared body is %r (%s)" % (sizes, got, body[:limit], cfg))
+                elif any(k < 0 for k in sizes) and joined != body[:limit]:
+                    bad = ("req.read%r returned %r: a read without size must deliver the rest of the declared body %r (%s)"
+                           % (sizes, got, body[:limit], cfg))
         elif kind == "headers":
             name = rng.choice(["X-Foo", "Accept-Language", "X-A-B-C", "If-None-Match", "X1", "Content-Md5"])
             value = rng.choice(["v", "Value; q=1", "é", " spaced ", "V,w"])
